@@ -19,7 +19,11 @@ class ConstraintExpansionMixin:
         # add constraints to help the solver out later
         # TODO: does this really help?
         if len(extra_constraints) == 0 and len(results) < n:
-            self.add([claripy.Or(*[e == v for v in results])], invalidate_cache=False)
+            # for a floating-point expression == is IEEE-754's comparison, which never holds for a NaN
+            self.add(
+                [claripy.Or(*[claripy.fpIsNaN(e) if isinstance(v, float) and v != v else e == v for v in results])],
+                invalidate_cache=False,
+            )
 
         return results
 
